@@ -1004,7 +1004,8 @@ def _default_logger_case(excutils, h, case, sub):
 # --------------------------------------------------------------------------
 # exception_filter
 
-STYLES = ('func', 'method', 'classmethod', 'staticmethod', 'partial')
+STYLES = ('func', 'method', 'classmethod', 'staticmethod', 'partial',
+          'method_twins', 'method_copy')
 USES = ('with', 'with_in_handler', 'call_active', 'call_after_inner',
         'call_other_active', 'call_outside')
 PRED_RESULTS = (
@@ -1065,6 +1066,57 @@ def _build_filter(excutils, style, spec, kind, rec):
                 rec['selfs'].append(self)
                 return decide(ex)
         inst = Ignorer()
+        rec['inst'] = inst
+        return inst.flt
+    def decide_quiet(ex):
+        # the same decision without recording (used by decoy filters)
+        if spec[0] == 'accept':
+            classes = {'own': (_KIND_CLASS[kind],), 'other': (OtherError,),
+                       'all': (BaseException,), 'none': ()}[spec[1]]
+            return isinstance(ex, classes)
+        if spec[0] == 'raise':
+            return False
+        return bool(object() if spec[1] == 'obj' else _CONST[spec[1]])
+
+    if style == 'method_twins':
+        # two filters of one class built by one factory: both underlying
+        # functions are called 'flt'; the decoy (used first on the same
+        # instance) decides the opposite of the real one
+        def make(real):
+            def flt(self, ex):
+                if not real:
+                    return not decide_quiet(ex)
+                rec['selfs'].append(self)
+                return decide(ex)
+            return excutils.exception_filter(flt)
+
+        class Twins:
+            first = make(False)
+            second = make(True)
+        inst = Twins()
+        rec['inst'] = inst
+        with inst.first:
+            pass
+        return inst.second
+    if style == 'method_copy':
+        # the predicate consults instance state; the instance is used once,
+        # then copied and the copy (with different state) is what is judged
+        import copy
+
+        class Stateful:
+            real = False
+
+            @excutils.exception_filter
+            def flt(self, ex):
+                if not self.real:
+                    return not decide_quiet(ex)
+                rec['selfs'].append(self)
+                return decide(ex)
+        first = Stateful()
+        with first.flt:
+            pass
+        inst = copy.copy(first)
+        inst.real = True
         rec['inst'] = inst
         return inst.flt
     if style == 'classmethod':
@@ -1181,7 +1233,7 @@ def filter_case(col, case, sub='filter'):
         bad('predicate received %r, not the exception object' % (arg,))
     if not isinstance(arg, _KIND_CLASS[kind]):
         bad('predicate received %r' % (arg,))
-    if style in ('method', 'classmethod') and \
+    if style in ('method', 'classmethod', 'method_twins', 'method_copy') and \
             (len(rec['selfs']) != 1 or rec['selfs'][0] is not rec['inst']):
         bad('bound filter called with %r' % (rec['selfs'],))
     if truth == 'raise':
